@@ -96,13 +96,23 @@ def run(tier):
                             "timeout": (70 if quick else 200) * 6} for s in ss],
                           timeout=600, recycle=1, env_extra={"PYTHONHASHSEED": seed}) if lean_ok else []
     n_same = 0
+    n_alpha = 0
     for (seed, seq), o in zip(sessions, outs):
         chk.evaluations += 1
         if o["status"] != "ok":
             chk.count("session:" + o["status"])
             continue
         for pos, (key, summ) in enumerate(o["result"]):
-            if summ == baseline[key]:
+            prog_s, prog_b = summ.pop("program", None), baseline[key].get("program")
+            if prog_s is not None and prog_b is not None:
+                # equal canonical forms: the two normalised programs are renamings of each other that fix the source names, hence
+                # (Polar.Ren.aux_names_irrelevant) every source moment agrees for ALL n, not only the compared ones
+                if prog_s == prog_b:
+                    n_alpha += 1
+                    chk.count("normalised-programs-alpha-equal")
+                else:
+                    chk.count("normalised-programs-differ-beyond-renaming")
+            if summ == {k_: v_ for k_, v_ in baseline[key].items() if k_ != "program"}:
                 n_same += 1
                 chk.nontrivial.add(f"{seed}:{[k for k, _ in o['result'][:pos + 1]]}")
                 continue
@@ -165,6 +175,8 @@ def run(tier):
                                "how": "harness.tasks.analyze:cli_multi(texts, goal_strs, at_n=3): one ActionFactory action called for every file"})
     chk.obligation("correspondence:multi-file-cli-run-equals-single-file-runs", lean_ok and (n_cli > 0 or not cli_groups), {"files_equal": n_cli})
     chk.obligation("correspondence:session-results-equal-fresh-process-results", lean_ok and n_same > 0, {"equal": n_same})
+    chk.obligation("validator:normalised-programs-equal-up-to-auxiliary-names", lean_ok and n_alpha > 0,
+                   {"alpha_equal": n_alpha, "differ": chk.counts.get("normalised-programs-differ-beyond-renaming", 0)})
     chk.assumptions = ["CPython hashing, lru_cache internals and object-identity reuse are runtime behaviour the model cannot exhibit: partial"]
     return chk.finish(level="proof",
                       rule="jobs x random orders x hash seeds; distinct = (seed, history prefix) whose result equalled the fresh-process result",
@@ -178,6 +190,8 @@ def replay(path):
     o = run_tasks([{"fn": "harness.tasks.session:session", "args": {"jobs": seq}}], timeout=900, recycle=1,
                   env_extra={"PYTHONHASHSEED": blob["seed"]})[0]
     got = o["result"][-1][1] if o["status"] == "ok" else o
+    got = {k: v for k, v in got.items() if k != "program"}
+    blob["fresh_process"] = {k: v for k, v in blob["fresh_process"].items() if k != "program"}
     print(json.dumps({"in_session": got, "fresh_process": blob["fresh_process"]}, indent=1)[:3000])
     if got != blob["fresh_process"]:
         print(f"VIOLATION property={PROP} replay={path}")
